@@ -95,14 +95,19 @@ def _install_env_recorder(reads):
     pkg = os.path.join(os.path.realpath(REPO), "conda_content_trust") + os.sep
 
     def note(key):
+        # attribute the read to the first frame outside os.py: only reads made BY repository code count (not e.g. argparse
+        # asking for COLUMNS while the CLI prints a usage message)
         f = sys._getframe(2)
-        for _ in range(6):
+        for _ in range(4):
             if f is None:
-                break
-            if os.path.realpath(f.f_code.co_filename).startswith(pkg):
+                return
+            fn = f.f_code.co_filename
+            if os.path.basename(fn) in ("os.py", "<frozen os>") or fn.startswith("<frozen"):
+                f = f.f_back
+                continue
+            if os.path.realpath(fn).startswith(pkg):
                 reads.add(str(key))
-                break
-            f = f.f_back
+            return
 
     class Proxy(type(real)):
         pass
@@ -129,7 +134,7 @@ def _install_env_recorder(reads):
 def _child(task, corpus_file, outf):
     env_reads = set()
     file_opens = []
-    if task == "ambient":
+    if task in ("ambient", "unit"):
         _install_env_recorder(env_reads)
     for m in filter(None, os.environ.get("VERIF_PREIMPORT", "").split(",")):
         __import__(m)
@@ -191,6 +196,27 @@ def _child(task, corpus_file, outf):
         task = "calls"
     if task == "persist":
         pass
+    elif task == "unit":
+        # corpus: {"prop", "unit", "cases"}: the unit's own oracle, run inside this configured interpreter
+        import importlib
+        mod = importlib.import_module("props." + corpus["prop"])
+        unit = next(u for u in mod.UNITS if u.name == corpus["unit"])
+        from vlib.runner import Violation
+        import io
+        real_stdout = sys.stdout
+        for case in corpus["cases"]:
+            if unit.stdout == "sink":
+                sys.stdout = io.StringIO()
+            try:
+                unit.check(case)
+                out.append(None)
+            except Violation as v:
+                out.append({"violation": v.msg, "bucket": v.bucket})
+            except Exception as e:      # harness trouble inside the child: reported, never counted as a violation
+                import traceback
+                out.append({"error": "%s: %s" % (type(e).__name__, e), "trace": traceback.format_exc()[-1200:]})
+            finally:
+                sys.stdout = real_stdout
     elif task == "canon":
         for v in corpus:
             out.append(hashlib.sha256(C.canonserialize(v)).hexdigest())
@@ -212,6 +238,8 @@ def _child(task, corpus_file, outf):
         raise SystemExit("unknown task")
     if sys.argv[1] == "ambient":
         out = {"verdicts": out, "env_reads": sorted(env_reads), "file_opens": file_opens}
+    if sys.argv[1] == "unit":
+        out = {"results": out, "env_reads": sorted(env_reads)}
     with open(outf, "w", encoding="utf-8") as f:
         json.dump(out, f)
 
